@@ -1566,13 +1566,15 @@ class Affine:
         if len(self.shape) != 2:
             raise ValueError('The diag function can only be applied to 2D arrays.')
 
-        num = min(self.shape)
+        rows, cols = self.shape
         if k >= 0:
-            idx_row = np.arange(num - k)
-            idx_col = np.arange(k, num)
+            num = max(min(rows, cols - k), 0)
+            idx_row = np.arange(num)
+            idx_col = np.arange(k, k + num)
         else:
-            idx_row = np.arange(-k, num)
-            idx_col = np.arange(num + k)
+            num = max(min(rows + k, cols), 0)
+            idx_row = np.arange(-k, -k + num)
+            idx_col = np.arange(num)
 
         if fill:
             bool_mat = np.ones(self.shape, dtype=bool)
